@@ -14,6 +14,9 @@ for d in sorted(os.listdir('/verif/seeded')):
         else: res=det.get('result','?')
     if m.get('not_claimed') and (not det or det.get('exit')!=1):
         res='not claimed (see meta.json): '+m['not_claimed'][:120]+'…'
+    oc=m.get('other_checks') or {}
+    extra=[f"{k}: {'caught' if isinstance(v,dict) and v.get('exit')==1 else ('silent' if isinstance(v,dict) and v.get('exit')==0 else '?')}" for k,v in sorted(oc.items())]
+    if extra: res+=' — other checks: '+', '.join(extra)
     rows.append(f"| `{d}` | {m['breaks_property']} | {m['needs_to_manifest'][:150].replace('|','/')} | {res} |")
 table="| seeded change | property | needs, to manifest | quick check result |\n|---|---|---|---|\n"+"\n".join(rows)
 p='/verif/DESIGN.md'
